@@ -159,7 +159,7 @@ def run(ctx, selftest=False):
                 "prior.sample), each executed 4 times (seed s, seed s, seed s with different global generator seeds, seed s+1); thorough adds "
                 "schwimmbad.MultiPool; distinct = distinct call sequences; trivial = scenario without any random draw")
     ctx.assumptions = ["TLC/SANY", "numpy bit-generator state repr identifies the stream position", "SHA-256 of returned arrays"]
-    ctx.model_check("Streams", "MC_Streams.cfg", coverage=True)
+    ctx.model_check("Streams", "MC_Streams.cfg" if quick else "MC_Streams_thorough.cfg", coverage=True)
     rnd = random.Random(ctx.seed * 48271 + 10)
     cases = gen_cases(ctx, rnd, 64 if quick else 600, 40 if quick else 300)
     traces = core.pmap(run_scenario, cases, chunksize=1)
